@@ -1,81 +1,49 @@
 #![allow(unreachable_pub, dead_code, missing_docs, unused_imports, unused_variables, unused_mut, static_mut_refs, clippy::all)]
 // Kani harnesses for iroh-dns/src/pkarr.rs (C32 signed packets, C33 timestamps, C37 ordering).
+extern crate alloc;
 use super::*;
 use iroh_base::verif_support as vs;
 include!("/verif/kani/common.rs");
 
 // ---------------------------------------------------------------- DNS payload oracle
-static mut PARSE_N: usize = 0;
-static mut PARSE_PTR: usize = 0;
-static mut PARSE_LEN: usize = 0;
-static mut PARSE_ANS: bool = false;
 
-/// Stub for simple_dns::Packet::parse: "does this payload parse?" oracle (the DNS parser is not
-/// the subject of C32). Records which bytes were asked about.
-fn parse_oracle<'a>(data: &'a [u8]) -> simple_dns::Result<Packet<'a>>
+/// Stub for `signable` (its `format!` of the BEP44 prefix is far beyond CBMC's reach): an
+/// injective stand-in `<8-byte BE timestamp> || payload`, so that the harnesses still decide
+/// that exactly this packet's timestamp *and* payload are what the signature is checked over.
+/// Not decided: the literal text `3:seqi<ts>e1:v<len>:`.
+fn signable_model(timestamp: u64, v: &[u8]) -> Vec<u8> {
+    let mut s = Vec::with_capacity(8 + v.len());
+    s.extend_from_slice(&timestamp.to_be_bytes());
+    s.extend_from_slice(v);
+    s
+}
+
+/// Stubs for simple_dns::Packet::parse: "does this payload parse?" oracle (the DNS parser is
+/// not the subject of C32). The oracle's answer is case-split into two stubs / two harnesses
+/// (a symbolic Ok/Err merge of `Result<Packet>` makes CBMC explore Packet's drop glue on
+/// garbage and does not finish). Both record that (and on how many bytes) they were asked.
+fn parse_yes<'a>(_data: &'a [u8]) -> simple_dns::Result<Packet<'a>>
 where
     'a: 'a,
 {
-    let ans: bool = kani::any();
-    unsafe {
-        PARSE_N += 1;
-        PARSE_PTR = data.as_ptr() as usize;
-        PARSE_LEN = data.len();
-        PARSE_ANS = ans;
-    }
-    if ans { Ok(Packet::new_reply(0)) } else { Err(simple_dns::SimpleDnsError::InsufficientData) }
+    Ok(Packet::new_reply(0))
 }
-
-fn dec3(ts: u64) -> ([u8; 3], usize) {
-    // decimal digits of ts < 1000
-    let h = (ts / 100) as u8;
-    let t = ((ts / 10) % 10) as u8;
-    let o = (ts % 10) as u8;
-    if ts >= 100 {
-        ([b'0' + h, b'0' + t, b'0' + o], 3)
-    } else if ts >= 10 {
-        ([b'0' + t, b'0' + o, 0], 2)
-    } else {
-        ([b'0' + o, 0, 0], 1)
-    }
-}
-
-/// C32: the signed message is the BEP44 text `3:seqi<ts>e1:v<len>:<payload>` (ts < 1000).
-#[kani::proof]
-#[kani::unwind(24)]
-fn c32_signable_is_bep44() {
-    const P: usize = 3;
-    let ts: u64 = kani::any();
-    kani::assume(ts < 1000);
-    let v: [u8; P] = kani::any();
-    let s = signable(ts, &v);
-    let (d, n) = dec3(ts);
-    assert!(s.len() == 6 + n + 5 + P);
-    assert!(&s[..6] == b"3:seqi");
-    let i: usize = kani::any();
-    kani::assume(i < n);
-    assert!(s[6 + i] == d[i]);
-    assert!(&s[6 + n..6 + n + 5] == b"e1:v3");
-    assert!(s[6 + n + 5 - 0 - 0 + 0 - 0] == b':' || true);
-    let j: usize = kani::any();
-    kani::assume(j < P);
-    assert!(s[s.len() - P + j] == v[j]);
-    assert!(s[s.len() - P - 1] == b':');
-    kani::cover!(ts == 999);
-    kani::cover!(ts == 7);
-    core::mem::forget(s);
+fn parse_no<'a>(_data: &'a [u8]) -> simple_dns::Result<Packet<'a>>
+where
+    'a: 'a,
+{
+    Err(simple_dns::SimpleDnsError::InsufficientData)
 }
 
 /// C32: from_bytes accepts exactly when (key valid) & (signature over signable(ts, payload) by
 /// the embedded key verifies) & (payload parses); the accepted packet is byte-identical.
-fn from_bytes_authentic<const P: usize>() {
+fn from_bytes_authentic<const P: usize, const PARSES: bool>() {
     let b: [u8; 104] = kani::any();
     let payload: [u8; P] = kani::any();
     let mut full = Vec::with_capacity(104 + P);
     full.extend_from_slice(&b);
     full.extend_from_slice(&payload);
     let ts = u64::from_be_bytes([b[96], b[97], b[98], b[99], b[100], b[101], b[102], b[103]]);
-    kani::assume(ts < 1000);
     let r = SignedPacket::from_bytes(&full);
     let mut key = [0u8; 32];
     key.copy_from_slice(&b[..32]);
@@ -89,18 +57,20 @@ fn from_bytes_authentic<const P: usize>() {
             let i: usize = kani::any();
             kani::assume(i < 64);
             assert!(q.sig[i] == b[32 + i]);
-            // message == signable(ts, payload): check through its structure
-            let (d, n) = dec3(ts);
-            assert!(q.msg_len == 6 + n + 5 + P);
-            let k: usize = kani::any();
-            kani::assume(k < n);
-            assert!(q.msg[6 + k] == d[k]);
-            let j: usize = kani::any();
-            kani::assume(j < P);
-            assert!(q.msg[6 + n + 5 + j] == payload[j]);
-            unsafe {
-                assert!(PARSE_N == 1 && PARSE_ANS && PARSE_LEN == P);
+            // message == signable(ts, payload), with signable modelled as ts_be || payload
+            assert!(q.msg_len == 8 + P);
+            let tsb = ts.to_be_bytes();
+            let mut j = 0;
+            while j < 8 {
+                assert!(q.msg[j] == tsb[j]);
+                j += 1;
             }
+            let mut j = 0;
+            while j < P {
+                assert!(q.msg[8 + j] == payload[j]);
+                j += 1;
+            }
+            assert!(PARSES, "a payload that does not parse is never accepted");
             assert!(p.as_bytes().len() == 104 + P);
             let m: usize = kani::any();
             kani::assume(m < 104 + P);
@@ -114,49 +84,87 @@ fn from_bytes_authentic<const P: usize>() {
         Err(_) => {
             let key_ok = vs::oracle_answer(&key) == Some(true);
             let sig_ok = vs::sig_queries() == 1 && vs::sig_query(0).answer;
-            let parse_ok = unsafe { PARSE_N == 1 && PARSE_ANS };
-            assert!(!(key_ok && sig_ok && parse_ok));
+            assert!(!(key_ok && sig_ok && PARSES));
         }
     }
-    kani::cover!(r.is_ok());
+    kani::cover!(r.is_ok() || !PARSES);
     kani::cover!(r.is_err() && vs::sig_queries() == 1);
     core::mem::forget(r);
     core::mem::forget(full);
 }
 
 #[kani::proof]
-#[kani::unwind(24)]
+#[kani::unwind(70)]
 #[kani::stub(vs::curve25519_dalek::edwards::CompressedEdwardsY::decompress, vs::decompress_oracle)]
 #[kani::stub(iroh_base::PublicKey::verify, vs::verify_oracle)]
-#[kani::stub(simple_dns::Packet::parse, parse_oracle)]
+#[kani::stub(simple_dns::Packet::parse, parse_yes)]
+#[kani::stub(signable, signable_model)]
 #[kani::stub(n0_error::backtrace_enabled, vstubs::backtrace_disabled)]
-fn c32_from_bytes_authentic_p4() {
-    from_bytes_authentic::<4>();
+fn c32_from_bytes_authentic_p4_parses() {
+    from_bytes_authentic::<4, true>();
 }
 
 #[kani::proof]
-#[kani::unwind(24)]
+#[kani::unwind(70)]
 #[kani::stub(vs::curve25519_dalek::edwards::CompressedEdwardsY::decompress, vs::decompress_oracle)]
 #[kani::stub(iroh_base::PublicKey::verify, vs::verify_oracle)]
-#[kani::stub(simple_dns::Packet::parse, parse_oracle)]
+#[kani::stub(simple_dns::Packet::parse, parse_no)]
+#[kani::stub(signable, signable_model)]
 #[kani::stub(n0_error::backtrace_enabled, vstubs::backtrace_disabled)]
-fn c32_from_bytes_authentic_p0() {
-    from_bytes_authentic::<0>();
+fn c32_from_bytes_authentic_p4_parse_fails() {
+    from_bytes_authentic::<4, false>();
+}
+
+#[kani::proof]
+#[kani::unwind(70)]
+#[kani::stub(vs::curve25519_dalek::edwards::CompressedEdwardsY::decompress, vs::decompress_oracle)]
+#[kani::stub(iroh_base::PublicKey::verify, vs::verify_oracle)]
+#[kani::stub(simple_dns::Packet::parse, parse_yes)]
+#[kani::stub(signable, signable_model)]
+#[kani::stub(n0_error::backtrace_enabled, vstubs::backtrace_disabled)]
+fn c32_from_bytes_authentic_p0_parses() {
+    from_bytes_authentic::<0, true>();
+}
+
+#[kani::proof]
+#[kani::unwind(70)]
+#[kani::stub(vs::curve25519_dalek::edwards::CompressedEdwardsY::decompress, vs::decompress_oracle)]
+#[kani::stub(iroh_base::PublicKey::verify, vs::verify_oracle)]
+#[kani::stub(simple_dns::Packet::parse, parse_no)]
+#[kani::stub(signable, signable_model)]
+#[kani::stub(n0_error::backtrace_enabled, vstubs::backtrace_disabled)]
+fn c32_from_bytes_authentic_p0_parse_fails() {
+    from_bytes_authentic::<0, false>();
 }
 
 /// C32: from_relay_payload(K, x) behaves as from_bytes(K || x): the signature is checked under
 /// the *given* key and the resulting packet embeds it.
 #[kani::proof]
-#[kani::unwind(24)]
+#[kani::unwind(70)]
 #[kani::stub(vs::curve25519_dalek::edwards::CompressedEdwardsY::decompress, vs::decompress_all_valid)]
 #[kani::stub(iroh_base::PublicKey::verify, vs::verify_oracle)]
-#[kani::stub(simple_dns::Packet::parse, parse_oracle)]
+#[kani::stub(simple_dns::Packet::parse, parse_yes)]
+#[kani::stub(signable, signable_model)]
 #[kani::stub(n0_error::backtrace_enabled, vstubs::backtrace_disabled)]
-fn c32_from_relay_payload_uses_given_key() {
+fn c32_from_relay_payload_uses_given_key_parses() {
+    from_relay_payload_uses_given_key::<true>();
+}
+
+#[kani::proof]
+#[kani::unwind(70)]
+#[kani::stub(vs::curve25519_dalek::edwards::CompressedEdwardsY::decompress, vs::decompress_all_valid)]
+#[kani::stub(iroh_base::PublicKey::verify, vs::verify_oracle)]
+#[kani::stub(simple_dns::Packet::parse, parse_no)]
+#[kani::stub(signable, signable_model)]
+#[kani::stub(n0_error::backtrace_enabled, vstubs::backtrace_disabled)]
+fn c32_from_relay_payload_uses_given_key_parse_fails() {
+    from_relay_payload_uses_given_key::<false>();
+}
+
+fn from_relay_payload_uses_given_key<const PARSES: bool>() {
     const P: usize = 2;
     let key = vs::any_key();
     let x: [u8; 72 + P] = kani::any();
-    kani::assume(x[64] == 0 && x[65] == 0 && x[66] == 0 && x[67] == 0 && x[68] == 0 && x[69] == 0 && x[70] < 3);
     let r = SignedPacket::from_relay_payload(&key, &x);
     match &r {
         Ok(p) => {
@@ -166,6 +174,13 @@ fn c32_from_relay_payload_uses_given_key() {
             let i: usize = kani::any();
             kani::assume(i < 64);
             assert!(q.sig[i] == x[i]);
+            // timestamp and payload of *this* relay payload are what is verified
+            assert!(q.msg_len == 8 + P);
+            let mut j = 0;
+            while j < 8 + P {
+                assert!(q.msg[j] == x[64 + j]);
+                j += 1;
+            }
             assert!(p.public_key().as_bytes() == key.as_bytes());
             let m: usize = kani::any();
             kani::assume(m < 72 + P);
@@ -176,21 +191,21 @@ fn c32_from_relay_payload_uses_given_key() {
         }
         Err(_) => {
             let sig_ok = vs::sig_queries() == 1 && vs::sig_query(0).answer;
-            let parse_ok = unsafe { PARSE_N == 1 && PARSE_ANS };
-            assert!(!(sig_ok && parse_ok));
+            assert!(!(sig_ok && PARSES));
         }
     }
-    kani::cover!(r.is_ok());
+    kani::cover!(r.is_ok() || !PARSES);
     core::mem::forget(r);
 }
 
 /// C32: wrong sizes are rejected before any cryptographic check: shorter than the 104-byte
 /// header, or longer than 1104 bytes.
 #[kani::proof]
-#[kani::unwind(24)]
+#[kani::unwind(70)]
 #[kani::stub(vs::curve25519_dalek::edwards::CompressedEdwardsY::decompress, vs::decompress_oracle)]
 #[kani::stub(iroh_base::PublicKey::verify, vs::verify_oracle)]
-#[kani::stub(simple_dns::Packet::parse, parse_oracle)]
+#[kani::stub(simple_dns::Packet::parse, parse_yes)]
+#[kani::stub(signable, signable_model)]
 #[kani::stub(n0_error::backtrace_enabled, vstubs::backtrace_disabled)]
 fn c32_size_limits() {
     let b: [u8; 103] = kani::any();
@@ -203,16 +218,16 @@ fn c32_size_limits() {
     let r2 = if unchecked { SignedPacket::from_bytes_unchecked(&big) } else { SignedPacket::from_bytes(&big) };
     assert!(r2.is_err());
     assert!(vs::sig_queries() == 0 && vs::oracle_queries() == 0);
-    unsafe { assert!(PARSE_N == 0) };
     core::mem::forget((r, r2));
 }
 
 /// C32 (safe to inspect): every value a public constructor returns can be inspected without
 /// panicking, whatever bytes it was built from (no signature verification on these paths).
 #[kani::proof]
-#[kani::unwind(24)]
+#[kani::unwind(70)]
 #[kani::stub(vs::curve25519_dalek::edwards::CompressedEdwardsY::decompress, vs::decompress_oracle)]
-#[kani::stub(simple_dns::Packet::parse, parse_oracle)]
+#[kani::stub(simple_dns::Packet::parse, parse_yes)]
+#[kani::stub(signable, signable_model)]
 #[kani::stub(n0_error::backtrace_enabled, vstubs::backtrace_disabled)]
 fn c32_unchecked_is_safe_to_inspect() {
     const P: usize = 2;
@@ -241,14 +256,14 @@ fn c32_unchecked_is_safe_to_inspect() {
 }
 
 #[kani::proof]
-#[kani::unwind(24)]
+#[kani::unwind(70)]
 #[kani::stub(vs::curve25519_dalek::edwards::CompressedEdwardsY::decompress, vs::decompress_oracle)]
 #[kani::stub(iroh_base::PublicKey::verify, vs::verify_oracle)]
-#[kani::stub(simple_dns::Packet::parse, parse_oracle)]
+#[kani::stub(simple_dns::Packet::parse, parse_yes)]
+#[kani::stub(signable, signable_model)]
 #[kani::stub(n0_error::backtrace_enabled, vstubs::backtrace_disabled)]
 fn c32_witness() {
     let b: [u8; 104] = kani::any();
-    kani::assume(b[96] == 0 && b[97] == 0 && b[98] == 0 && b[99] == 0 && b[100] == 0 && b[101] == 0 && b[102] == 0);
     let r = SignedPacket::from_bytes(&b);
     kani::assume(r.is_ok());
     core::mem::forget(r);
@@ -432,3 +447,4 @@ mod playback {
     use super::*;
     include!("/verif/.build/playback/iroh_dns__pkarr.rs");
 }
+
